@@ -151,48 +151,55 @@ structure MatchCfg where
   rankGuard : Bool
   rank : Nat → Option Nat
 
+/-- the associative + commutative chain matcher of `OpPattern::matches` (first attempt) -/
+def chainMatch (g : GView) (recur : Pat → Nat → Syms → Option Syms) (name : String) (pins : List Pat)
+    (o : OpNode) (s : Syms) : Option Syms :=
+  if associative o.ty && commutative o.ty && pins.length == 2 then
+    if (pins.flatMap (flattenPat name 32)).length ≥ 3 then
+      match o.ins with
+      | [some a, some b] =>
+        if (pins.flatMap (flattenPat name 32)).length == (flattenGraph g name 32 a ++ flattenGraph g name 32 b).length then
+          matchSet recur (pins.flatMap (flattenPat name 32))
+            ((List.range (flattenGraph g name 32 a ++ flattenGraph g name 32 b).length).zip
+              (flattenGraph g name 32 a ++ flattenGraph g name 32 b)) [] s
+        else none
+      | _ => none
+    else none
+  else none
+
+/-- the strict commutative matcher, then positional matching -/
+def strictMatch (recur : Pat → Nat → Syms → Option Syms) (pins : List Pat) (o : OpNode) (s : Syms) : Option Syms :=
+  match commutative o.ty, pins, o.ins with
+  | true, [pa, pb], [some ia, some ib] =>
+    match (recur pa ia s).bind (recur pb ib) with
+    | some s' => some s'
+    | none => (recur pb ia s).bind (recur pa ib)
+  | _, _, _ => matchZip recur pins o.ins s
+
+/-- `OpPattern::matches` -/
+def opMatches (g : GView) (cfg : MatchCfg) (recur : Pat → Nat → Syms → Option Syms) (name : String)
+    (pins : List Pat) (o : OpNode) (s : Syms) : Option Syms :=
+  if o.ty != name then none
+  else if pins.length != o.ins.length then none
+  else
+    match (match chainMatch g recur name pins o s with
+           | some s' => some s'
+           | none => strictMatch recur pins o s) with
+    | some s' => if cfg.rankGuard && !constsPreserveRank g cfg.rank pins o then none else some s'
+    | none => none
+
 /-- `Pattern::test_impl` (value / constant / operator node `v`). -/
 def matchPat (g : GView) (cfg : MatchCfg) : Nat → Pat → Nat → Syms → Option Syms
   | 0, _, _, _ => none
   | fuel + 1, p, v, s =>
-    let recur := matchPat g cfg fuel
-    let opMatches (name : String) (pins : List Pat) (o : OpNode) (s : Syms) : Option Syms :=
-      if o.ty != name then none
-      else if pins.length != o.ins.length then none
-      else
-        let r : Option Syms :=
-          let chain : Option Syms :=
-            if associative o.ty && commutative o.ty && pins.length == 2 then
-              let pats := pins.flatMap (flattenPat name 32)
-              if pats.length ≥ 3 then
-                let nodes := match o.ins with
-                  | [some a, some b] => flattenGraph g name 32 a ++ flattenGraph g name 32 b
-                  | _ => []
-                if pats.length == nodes.length then
-                  matchSet recur pats ((List.range nodes.length).zip nodes) [] s
-                else none
-              else none
-            else none
-          match chain with
-          | some s' => some s'
-          | none =>
-            match commutative o.ty, pins, o.ins with
-            | true, [pa, pb], [some ia, some ib] =>
-              match (recur pa ia s).bind (recur pb ib) with
-              | some s' => some s'
-              | none => (recur pb ia s).bind (recur pa ib)
-            | _, _, _ => matchZip recur pins o.ins s
-        match r with
-        | some s' => if cfg.rankGuard && !constsPreserveRank g cfg.rank pins o then none else some s'
-        | none => none
     match p with
     | .op name pins key =>
       match g.opById v with
-      | some o => (opMatches name pins o s).bind (bindKey cfg.strictKeys key o.oid)
+      | some o => (opMatches g cfg (matchPat g cfg fuel) name pins o s).bind (bindKey cfg.strictKeys key o.oid)
       | none =>
         if g.values.contains v then
           match g.source v with
-          | some o => (opMatches name pins o s).bind (bindKey cfg.strictKeys key o.oid)
+          | some o => (opMatches g cfg (matchPat g cfg fuel) name pins o s).bind (bindKey cfg.strictKeys key o.oid)
           | none => none
         else none
     | .const bits exact =>
@@ -200,13 +207,12 @@ def matchPat (g : GView) (cfg : MatchCfg) : Nat → Pat → Nat → Syms → Opt
       | some c => if constMatches c bits exact then some s else none
       | none => none
     | .sym name isConst =>
-      let isC := (g.const? v).isSome
-      if !(isC || g.values.contains v) then none
-      else if isConst && !isC then none
+      if !((g.const? v).isSome || g.values.contains v) then none
+      else if isConst && !(g.const? v).isSome then none
       else
         match s.find name with
         | some r => if r == v then some s else none
         | none => some (s ++ [(name, v)])
-    | .anyOf ps => ps.findSome? fun q => recur q v s
+    | .anyOf ps => ps.findSome? fun q => matchPat g cfg fuel q v s
 
 end RtenVerif.Pattern
